@@ -11,7 +11,7 @@
 //   subs: q<id> r<id> quit p<id> startLoop destroy
 // stdout: `T<k> <event>` lines, `# …` comments, then `done` | `blocked T0:<st> …`, then `--`.
 //   comments for the trace oracle (not compared with the model): `# T<k> call q|r <id>` / `# T<k> ret q|r <id>`,
-//   `# T<k> call quit|startLoop|destroy` / `# T<k> ret …` around every API call, `# T<k> leave <id>` at the end of
+//   `# T<k> call quit|startLoop|destroy` / `# T<k> ret …` around every API call (`ret startLoop ok|null|other`), `# T<k> leave <id>` at the end of
 //   a task body (its beginning is the event `T<k> exec <id>`).
 //
 // Which loop an op addresses: plain mode → the one loop; elt mode → T0 uses the pointer returned by
@@ -70,6 +70,7 @@ muduo::net::EventLoopThread* g_elt_obj = 0;
 volatile int g_wakeFd = -1;               // last fd returned by eventfd()
 volatile bool g_destroyed = false;        // the wake-up fd of the loop under test was closed
 volatile bool g_finished = false;         // `done` printed: interposers stay silent
+__thread bool t_wakeWindow = false;       // this thread passed `quit:stored` / `queueInLoop:appended` and has not returned yet
 int g_pipeR = -1, g_pipeW = -1;
 
 // ------------------------------------------------------------------------------------------ output
@@ -174,7 +175,11 @@ int eventfd(unsigned int initval, int flags) __THROW {
 }
 
 ssize_t write(int fd, const void* buf, size_t n) {
-  if (fd < 0 || fd != g_wakeFd || g_finished) return realWrite(fd, buf, n);
+  // a wake-up write: to the loop's eventfd, or — when the caller read the descriptor number out of a loop that no
+  // longer exists — the 8-byte write that follows the points `quit:stored` / `queueInLoop:appended` on this thread
+  bool window = t_wakeWindow && n == sizeof(uint64_t) && g_destroyed;
+  if (g_finished || !((fd >= 0 && fd == g_wakeFd) || window)) return realWrite(fd, buf, n);
+  t_wakeWindow = false;
   say("wakeup");
   if (g_destroyed) {
     sayUaf();
@@ -247,7 +252,7 @@ void doSub(const Sub& s) {
         g_elt_obj = new muduo::net::EventLoopThread(&initCallback, "w");
         g_loopPtr = g_elt_obj->startLoop();
         say("started");
-        note("ret startLoop");
+        note("ret startLoop %s", g_loopPtr == 0 ? "null" : (g_loopPtr == g_loop ? "ok" : "other"));
       }
       break;
     case Sub::DESTROY:
@@ -263,7 +268,10 @@ void doSub(const Sub& s) {
   }
 }
 void doSubs(const Subs& v) {
-  for (size_t i = 0; i < v.size(); ++i) doSub(v[i]);
+  for (size_t i = 0; i < v.size(); ++i) {
+    doSub(v[i]);
+    t_wakeWindow = false;
+  }
 }
 void execTask(int id) {
   say("exec %d", id);
@@ -309,9 +317,12 @@ void observer(const ds::Ev& e) {
     if (!shortName) return;
     say("point %s", shortName);
     if ((strcmp(nm, "EventLoop::quit:stored") == 0 || strcmp(nm, "EventLoop::queueInLoop:appended") == 0) &&
-        e.obj == g_loop && g_loop && g_destroyed)
-      sayUaf();
+        e.obj == g_loop && g_loop) {
+      t_wakeWindow = true;
+      if (g_destroyed) sayUaf();
+    }
   } else if (e.kind == ds::EV_JOIN) {
+    t_wakeWindow = false;
     if (g_elt) say("joined");
   }
 }
